@@ -46,6 +46,20 @@ def check(model: Model, run: Run) -> None:
         okargs = any('self.neighbor.previous.routes' in x for x in texts(rr[0].args[0])) and any(x == 'self.neighbor.routes' for x in texts(rr[0].args[1]))
     run.check(okargs, mainf.qualname, 'replace_restart(previous configured routes, current configured routes)', mainf.loc(rr[0]) if rr else mainf.loc(), 'the delta of configured routes is previous -> current')
 
+    # the delta previous -> current is applied ONCE: the link to the previous configuration is cut after replace_restart has
+    # used it, on every path to the first _send_route_updates; kept, the same delta is re-applied at every later session and
+    # withdraws again what the reload removed - also when the API has announced that prefix since
+    if rr:
+        cuts = [n for n in walk_no_nested(mainf.node) if isinstance(n, ast.Assign) and dotted(n.targets[0]) == 'self.neighbor.previous' and isinstance(n.value, ast.Constant) and n.value.value is None]
+        first_send = model.calls_to(mainf.module, mainf.node, 'Peer._send_route_updates')
+        okcut = False
+        if cuts and first_send:
+            tg = {x.id for c_ in cuts for x in cfg.nodes_of(c_)}
+            stop = cfg.stmt_node_containing(sorted(first_send, key=lambda c_: c_.lineno)[0])
+            if stop is not None:
+                okcut, _p = cfg.all_paths_pass(cfg.entry.id, tg, {stop.id}, skip_labels=('exc',))
+        run.check(okcut, mainf.qualname, 'self.neighbor.previous is cleared once replace_restart has applied the reload delta', mainf.loc(rr[0]), 'the previous configuration stays linked: every later session withdraws the routes the reload removed once more, API routes for those prefixes included (they are removed from the Adj-RIB-Out cache and never re-advertised)')
+
     # ------------------------------------------------------------------ R2
     run.rule('C11.R2', 'replace_restart re-queues EVERY cached route of the negotiated families with force=True (bypassing the dedup cache), withdraws previous-minus-new, and queues nothing else (a route that left the cache is not resurrected)', floor=2)
     f = model.func(RIB + '.replace_restart')
